@@ -279,7 +279,17 @@ def strip_attrs_and_vis(src, s, kw):
         if kind == "p" and txt == "#":
             j = src.next_sig(k, kw)
             if j < kw and src.t(j) == "[":
-                dropped.append(norm(src.text[a:src.toks[src.match[j]][2]]))
+                attr = norm(src.text[a:src.toks[src.match[j]][2]])
+                dm = re.match(r"#\[derive\((.*)\)\]$", attr)
+                if dm:
+                    keep = [x.strip() for x in dm.group(1).split(",") if x.strip() in ("Copy", "Clone", "PartialEq", "Eq")]
+                    drop = [x.strip() for x in dm.group(1).split(",") if x.strip() and x.strip() not in keep]
+                    if keep:
+                        out.append("#[derive(" + ", ".join(keep) + ")]")
+                    if drop:
+                        dropped.append("derive(" + ", ".join(drop) + ")")
+                else:
+                    dropped.append(attr)
                 k = src.match[j] + 1
                 continue
         if kind == "id" and txt == "pub":
@@ -317,6 +327,10 @@ def extract_verbatim(src, path, relfile, keep_pub=False, subst=None):
     w.hash_src = src.text[src.toks[s][1]:b]
     # field visibility inside struct bodies
     body2 = re.sub(r"\bpub(\s*\([^)]*\))?\s+", "", body) if not keep_pub else body
+    body3 = re.sub(r"(?m)^\s*#\[[^\]\n]*\]\s*\n", "", body2)
+    if body3 != body2:
+        dropped.append("inner attributes")
+    body2 = body3
     if body2 != body:
         dropped.append("pub (fields)")
     for (x, y, cnt) in (subst or []):
@@ -533,11 +547,20 @@ def weave_fn(src, path, relfile, spec):
 
     # --- emit
     w.add(pre, ("repo", relfile, src.line_of(src.toks[s][1])))
+    if spec.get("stub"):
+        # assumed contract: signature from the repo, body dropped; proved against the same contract text by another unit / by Kani
+        w.add("#[verifier::external_body] // LEDGER(assumed contract of %s)\n" % path[-1], ("gen", "stub", 0))
+        w.add(sig.rstrip() + "\n", ("repo", relfile, sig_line))
+        if spec.get("contract"):
+            w.add(spec["contract"][0].rstrip("\n") + "\n", ("overlay", spec.get("contract_file", spec["overlay_file"]), spec["contract"][1]))
+        w.add("{ unimplemented!() }\n", ("gen", "stub", 0))
+        w.notes.append("STUB: body dropped, contract assumed")
+        return w
     if spec.get("external_body"):
         w.add("#[verifier::external_body]\n", ("gen", "external_body", 0))
     w.add(sig.rstrip() + "\n", ("repo", relfile, sig_line))
     if spec.get("contract"):
-        w.add(spec["contract"][0].rstrip("\n") + "\n", ("overlay", spec["overlay_file"], spec["contract"][1]))
+        w.add(spec["contract"][0].rstrip("\n") + "\n", ("overlay", spec.get("contract_file", spec["overlay_file"]), spec["contract"][1]))
     inserts.sort(key=lambda t: t[0])
     pos = 0
     cur_line = body_line
@@ -548,4 +571,213 @@ def weave_fn(src, path, relfile, spec):
         w.add(text, ("overlay", spec["overlay_file"], oline))
         pos = off
     w.add(body[pos:] + "\n", ("repo", relfile, cur_line))
+    return w
+
+
+# ------------------------------------------------------------------------------------------------ R5: lambda lifting
+LIFT_FNS = {"transaction": "with_transaction", "transaction_union": "with_transaction_union", "lookahead": "with_lookahead"}
+
+
+def split_params(sig):
+    """parameter names of `fn name<..>(a: A, b: B) ...` in order (self for receivers)"""
+    m = re.search(r"\(", sig)
+    toks = tokenize(sig)
+    # find the parameter list parens (first '(' at angle depth 0 after the name)
+    depth = 0
+    start = None
+    for kind, a, b in toks:
+        if kind == "p":
+            ch = sig[a]
+            if ch == "(" and start is None:
+                start = a
+                depth = 1
+                continue
+            if start is not None:
+                if ch in "([{":
+                    depth += 1
+                elif ch in ")]}":
+                    depth -= 1
+                    if depth == 0:
+                        end = a
+                        break
+    inner = sig[start + 1:end]
+    names = []
+    cur = ""
+    d = 0
+    for ch in inner:
+        if ch in "([{<":
+            d += 1
+        elif ch in ")]}>":
+            d -= 1
+        if ch == "," and d == 0:
+            names.append(cur)
+            cur = ""
+        else:
+            cur += ch
+    if cur.strip():
+        names.append(cur)
+    out = []
+    for n in names:
+        n = n.strip()
+        if re.match(r"^&?\s*(mut\s+)?self\b", n):
+            out.append("self")
+        else:
+            out.append(re.sub(r"^mut\s+", "", n.split(":")[0].strip()))
+    return out, start, end
+
+
+def weave_lifted(src, path, relfile, spec, reader_src):
+    """fn f(..) -> Result<T> { RECV.with_transaction(|P| BODY) }  =>  fn f_body(..) -> Result<T> { BODY }  +  fn f(..) = text of
+    with_transaction with `f(self)` replaced by the call of f_body (beta reduction)."""
+    kind = spec["lift"]
+    hof = LIFT_FNS[kind]
+    s, kw, e = src.find_path(path)
+    if src.t(e) != "}":
+        raise RsxError("%s: %s has no body" % (relfile, path[-1]))
+    ob = src.match[e]
+    pre, dropped = strip_attrs_and_vis(src, s, kw)
+    sig = src.text[src.toks[kw][1]:src.toks[ob][1]]
+    body = src.text[src.toks[ob][1] + 1:src.toks[e][1]]
+    m = re.match(r"\s*(\w+)\s*\.\s*%s\s*\(\s*\|(\w+)\|\s*" % hof, body)
+    if not m:
+        raise RsxError("%s: R5 pattern `RECV.%s(|p| ...)` not found in %s" % (relfile, hof, path[-1]))
+    recv, cparam = m.group(1), m.group(2)
+    rest = body[m.end():]
+    # closure body: up to the `)` closing the call; what follows must be whitespace only
+    trail = rest.rstrip()
+    if not trail.endswith(")"):
+        raise RsxError("%s: R5: closure is not the whole body of %s" % (relfile, path[-1]))
+    cbody = trail[:-1].rstrip()
+    body_off = src.toks[ob][1] + 1 + m.end()  # offset of closure body in the file
+    if not cbody.startswith("{"):
+        cbody_text = "{\n        " + cbody + "\n    }"
+        is_block = False
+    else:
+        if match_brace(cbody, 0) != len(cbody) - 1:
+            raise RsxError("%s: R5: closure block does not span the call in %s" % (relfile, path[-1]))
+        cbody_text = cbody
+        is_block = True
+    name = re.match(r"fn\s+(\w+)", sig).group(1)
+    params, ps, pe = split_params(sig)
+    if recv not in params:
+        raise RsxError("%s: R5: receiver `%s` is not a parameter of %s" % (relfile, recv, name))
+    # --- f_body: same signature, reader parameter renamed to the closure's parameter name
+    body_sig = re.sub(r"^fn\s+\w+", "fn " + name + "_body", sig, count=1)
+    if cparam != recv:
+        body_sig = re.sub(r"\b%s\s*:" % re.escape(recv), cparam + ":", body_sig, count=1)
+    # --- f: template from the reader
+    ts, tkw, te = reader_src.find_path(["impl H263Reader<R>", "fn " + hof])
+    tob = reader_src.match[te]
+    templ = reader_src.text[reader_src.toks[tob][1] + 1:reader_src.toks[te][1]]
+    if templ.count("f(self)") != 1:
+        raise RsxError("reader.rs: %s no longer has the shape `... f(self) ...`" % hof)
+    templ = templ.replace("f(self)", "\x00CALL\x00")
+    templ = re.sub(r"\bself\b", recv, templ)
+    if "self" in params:
+        call = "self.%s_body(%s)" % (name, ", ".join(p for p in params if p != "self"))
+    else:
+        call = "%s_body(%s)" % (name, ", ".join(params))
+    templ = templ.replace("\x00CALL\x00", call)
+
+    w = Woven()
+    w.hash_src = src.text[src.toks[s][1]:src.toks[e][2]] + templ
+    w.notes.append("R5 lambda-lifted over %s (closure parameter `%s`)" % (hof, cparam))
+    if dropped:
+        w.notes.append("R0 dropped: " + ", ".join(sorted(set(dropped))))
+
+    def named(sg, ret):
+        if not ret:
+            return sg
+        mm = re.search(r"->\s*", sg)
+        rest2 = sg[mm.end():]
+        wm = re.search(r"\bwhere\b", rest2)
+        ty = rest2[:wm.start()] if wm else rest2
+        tail = rest2[wm.start():] if wm else ""
+        return sg[:mm.start()] + "-> (" + ret + ": " + ty.strip() + ")" + ("\n" + tail if tail else " ")
+
+    # body-level weaving (rules, substs, loops, anchors) on the closure body
+    sub = dict(spec)
+    sub_body = cbody_text
+    for r in spec.get("rules", []):
+        sub_body, n = RULES[r](sub_body)
+        if n == 0:
+            raise RsxError("%s: rule %s did not match in %s" % (relfile, r, name))
+        w.notes.append("%s x%d" % (r, n))
+    for (x, y, cnt) in spec.get("subst", []):
+        if sub_body.count(x) != cnt:
+            raise RsxError("%s: subst `%s` expected %d occurrence(s), found %d in %s" % (relfile, x, cnt, sub_body.count(x), name))
+        sub_body = sub_body.replace(x, y)
+        w.notes.append("subst `%s` => `%s`" % (x, y))
+    inserts = []
+    if spec.get("loops"):
+        toks = tokenize(sub_body)
+        loop_pos = []
+        for k, (kind2, a, b) in enumerate(toks):
+            if kind2 == "id" and sub_body[a:b] in ("for", "while", "loop"):
+                depth = 0
+                j = k + 1
+                pos = None
+                while j < len(toks):
+                    kk, aa, bb = toks[j]
+                    if kk == "p":
+                        ch = sub_body[aa]
+                        if ch in "([":
+                            depth += 1
+                        elif ch in ")]":
+                            depth -= 1
+                        elif ch == "{" and depth == 0:
+                            pos = aa
+                            break
+                    j += 1
+                loop_pos.append(pos)
+        want = spec.get("loop_count")
+        if want is not None and want != len(loop_pos):
+            raise RsxError("%s: %s has %d loops, overlay expects %d" % (relfile, name, len(loop_pos), want))
+        for n, (text, oline) in spec["loops"].items():
+            if n < 1 or n > len(loop_pos):
+                raise RsxError("%s: %s has %d loops, overlay annotates loop %d" % (relfile, name, len(loop_pos), n))
+            inserts.append((loop_pos[n - 1], "\n" + text.rstrip("\n") + "\n", oline))
+    for kind2 in ("before", "after"):
+        for (snippet, text, ordinal, oline) in spec.get(kind2, []):
+            occ = [mm.start() for mm in re.finditer(re.escape(snippet), sub_body)]
+            if not occ:
+                raise RsxError("%s: anchor `%s` lost in %s" % (relfile, snippet, name))
+            if ordinal is None:
+                if len(occ) != 1:
+                    raise RsxError("%s: anchor `%s` ambiguous (%d) in %s" % (relfile, snippet, len(occ), name))
+                at = occ[0]
+            else:
+                if ordinal > len(occ):
+                    raise RsxError("%s: anchor `%s`#%d lost in %s" % (relfile, snippet, ordinal, name))
+                at = occ[ordinal - 1]
+            if kind2 == "before":
+                ls = sub_body.rfind("\n", 0, at) + 1
+                inserts.append((ls, text.rstrip("\n") + "\n", oline))
+            else:
+                le = sub_body.find("\n", at + len(snippet))
+                le = len(sub_body) if le < 0 else le + 1
+                inserts.append((le, text.rstrip("\n") + "\n", oline))
+    line0 = src.line_of(body_off)
+    sig_line = src.line_of(src.toks[kw][1])
+    # emit f_body
+    w.add(pre, ("repo", relfile, src.line_of(src.toks[s][1])))
+    w.add(named(body_sig, spec.get("body_ret")).rstrip() + "\n", ("repo", relfile, sig_line))
+    if spec.get("body_contract"):
+        w.add(spec["body_contract"][0].rstrip("\n") + "\n", ("overlay", spec["overlay_file"], spec["body_contract"][1]))
+    inserts.sort(key=lambda t: t[0])
+    pos = 0
+    cur_line = line0
+    for (off, text, oline) in inserts:
+        chunk = sub_body[pos:off]
+        w.add(chunk, ("repo", relfile, cur_line))
+        cur_line += chunk.count("\n")
+        w.add(text, ("overlay", spec["overlay_file"], oline))
+        pos = off
+    w.add(sub_body[pos:] + "\n", ("repo", relfile, cur_line))
+    # emit f
+    w.add(named(sig, spec.get("ret")).rstrip() + "\n", ("repo", relfile, sig_line))
+    if spec.get("contract"):
+        w.add(spec["contract"][0].rstrip("\n") + "\n", ("overlay", spec["overlay_file"], spec["contract"][1]))
+    tl = reader_src.line_of(reader_src.toks[tob][1])
+    w.add("{" + templ + "}\n", ("repo", "h263/src/parser/reader.rs", tl))
     return w
